@@ -58,6 +58,74 @@ def nochange_sound(E, rd, new_ret, old_ret):
     return E.Implies(E.And(T.all_nochange(rd), E.Not(noleaves)), E.eq(new_ret, old_ret))
 
 
+def callee_key(E, v, fname, what):
+    """the key the real code handed to an abstract callee: `v` is the callee's result (e.g. the trace gf_simulate(G, key,
+    args)); when the result is not a direct application of `fname` the contract cannot be stated on this path (undecided)"""
+    from theory import keys as K
+    from pyvc.values import Unsupported
+    t = v.t if isinstance(v, UVal) else E.I.to_u(v)
+    k = K.key_of(t, fname)
+    if k is None:
+        raise Unsupported(f"{what}: result is not a direct {fname} application: {str(t)[:80]}")
+    return k
+
+
+def loop_key_discipline(E, loop, k, key_at, carried_key, n, what, pos=0):
+    """C04 for a lax.scan loop whose iterations each hand ONE key to a consumer (DESIGN §5 C04, theory/keys.py).
+      key_at(i)      z3 term: the key the real loop body hands to its consumer at iteration i
+      carried_key(c) the key component of a carry
+    Obligations (none mentions HOW the keys are derived):
+      .carried_key_descends_from_the_given_key   (induction) the only source of randomness is the caller's key
+      .iteration_key_descends_from_the_given_key
+      .consecutive_iterations_draw_independently  key_i, key_{i+1}: neither is an ancestor-or-equal of the other
+      .all_iterations_draw_independently          key_i, key_j, i != j  (uses the proved invariants on the carried key)"""
+    from theory import keys as K
+    z3 = E.z3
+    I = E.I
+    depth = K._fns(I)[0]
+
+    def below(t):
+        return z3.Implies(z3.And(K.facts(I, [t, k.t], [depth(k.t)])), K.ancestor_or_equal(I, k.t, t))
+    loop.prove_invariant(E, f"C04.{what}.carried_key_descends_from_the_given_key", lambda i, c: below(carried_key(c).t))
+    i, j = E.ctx.const("i", z3.IntSort()), E.ctx.const("j", z3.IntSort())
+    E.prove(f"C04.{what}.iteration_key_descends_from_the_given_key",
+            E.Implies(z3.And(i >= 0, i < n), below(key_at(i))))
+    E.prove(f"C04.{what}.consecutive_iterations_draw_independently",
+            E.Implies(z3.And(i >= 0, i + 1 < n), K.independent(I, key_at(i), key_at(i + 1))))
+    # helper invariant (derived from the code, not from the property): the carried key is loop-invariant.  It only serves
+    # the all-pairs clause; the two clauses above do not depend on it
+    ok = loop.prove_invariant(E, f"C04.{what}.helper.carried_key_is_loop_invariant", lambda i_, c: E.eq(carried_key(c), k))
+    i, j = E.ctx.const("i", z3.IntSort()), E.ctx.const("j", z3.IntSort())      # fresh indices: unfolded with ALL invariants
+    E.prove(f"C04.{what}.all_iterations_draw_independently",
+            E.Implies(z3.And(i >= 0, i < n, j >= 0, j < n, i != j), K.independent(I, key_at(i), key_at(j))))
+
+
+def batch_key_discipline(E, k, key_at, n, what):
+    """C04 for a vmapped call: element i's consumer gets key_at(i) (z3 term).  Every element key descends from the caller's
+    key, is not the caller's key itself, and two different elements draw independently (theory/keys.py)"""
+    from theory import keys as K
+    z3, I = E.z3, E.I
+    depth = K._fns(I)[0]
+    i, j = E.ctx.const("i", z3.IntSort()), E.ctx.const("j", z3.IntSort())
+    ki, kj = key_at(i), key_at(j)
+    E.prove(f"C04.{what}.element_keys_descend_from_the_given_key", E.Implies(
+        z3.And(i >= 0, i < n, z3.And(K.facts(I, [ki, k.t], [depth(k.t)]))), K.ancestor_or_equal(I, k.t, ki)))
+    E.prove(f"C04.{what}.elements_draw_independently", E.Implies(
+        z3.And(i >= 0, i < n, j >= 0, j < n, i != j), K.independent(I, ki, kj)))
+
+
+def pair_key_discipline(E, k, keys, what):
+    """C04 for a method that hands a fixed number of keys to different consumers: pairwise independent, all from `k`"""
+    from theory import keys as K
+    z3, I = E.z3, E.I
+    depth = K._fns(I)[0]
+    for a, ka in enumerate(keys):
+        E.prove(f"C04.{what}.key_{a}_descends_from_the_given_key", E.Implies(
+            z3.And(K.facts(I, [ka, k.t], [depth(k.t)])), K.ancestor_or_equal(I, k.t, ka)))
+        for b in range(a + 1, len(keys)):
+            E.prove(f"C04.{what}.keys_{a}_and_{b}_are_independent", K.independent(I, ka, keys[b]))
+
+
 def fld(E, o, name):
     """field of a repository object; an unrelated fresh opaque value when `o` is not such an object (so that a clause
     about the field is refuted instead of crashing the checker)"""
